@@ -286,6 +286,10 @@ func (level Level) MarshalText() ([]byte, error) {
 
 // ParseLevel takes a string level and returns the Logrus log level constant.
 func ParseLevel(lvl string) (Level, error) {
+	// registered titles keep their case ("NOTICE"), so try the exact text first
+	if l, ok := stringToLevel[lvl]; ok {
+		return l, nil
+	}
 	if l, ok := stringToLevel[strings.ToLower(lvl)]; ok {
 		return l, nil
 	}
